@@ -97,7 +97,7 @@ func parseTimed(text string, resp *wire.Resp) ([]*process.Process, []process.Nam
 func opParse(req *wire.Req, resp *wire.Resp) {
 	procs, assumed, env, ok := parseTimed(req.Text, resp)
 	if ok && req.WantDump {
-		resp.Dump = dumpAll(procs, assumed, env, false)
+		resp.Dump = dumpAll(procs, assumed, env, req.DumpTy)
 	}
 }
 
